@@ -360,7 +360,8 @@ def gen_container_ops(run: Run, rng):
     shapes = {}
     for p in names:
         if mode == "vectors":
-            shapes[p] = (rng.choice([1, 1, 1, 2, 3, 4]),)
+            # lengths beyond 10 too: the component index in a column label then has two digits (`sources_10`, `sources_11`)
+            shapes[p] = (rng.choice([1, 1, 1, 2, 3, 4, 4, 11, 13]),)
         elif mode == "all-scalars":
             shapes[p] = ()
         else:
